@@ -374,9 +374,15 @@ class AtomSelection:
             return bool(re.search(r'\.', selection_string))
 
         selection = defaultdict(list)
+        indexed_el = None
         for split in selection_string.split(","):
             # split into element and sites
             sites = re.split('([a-zA-Z]+)', split)[1:]
+            if not sites and split != "" and indexed_el is not None:
+                # bare site numbers ('Si.1-3,5') carry on with the element
+                # of the indexed item before them
+                sites = [indexed_el, "." + split]
+            indexed_el = None
             el = sites.pop(0)
             # make sure no numbers left in el
             if has_numbers(el):
@@ -418,6 +424,7 @@ class AtomSelection:
                 # switch to python indexing:
                 el_indices = np.array(el_indices) - 1
                 selection[el].extend(element_indices[el_indices])
+                indexed_el = el
 
             else:
                 # must be a cif-style label!
